@@ -142,6 +142,15 @@ def header_plan(ctx, n, tag):
     return out
 
 
+def seam_case(r, npts):
+    """a header whose reference pixel lies inside the image on the RA = 0 meridian, and positions within
+    half a pixel of it"""
+    kind = r.choice(g.KINDS)
+    h = g.gen_header(r, kind, "seam0", "inside")
+    pts = [[h["crpix1"] + r.uniform(-0.4, 0.4), h["crpix2"] + r.uniform(-0.4, 0.4)] for _ in range(npts)]
+    return h, "%s/seam0-straddle/inside" % kind, pts
+
+
 class Base(Entry):
     def family(self, c):
         return self.name + ":" + c.get("family", "?").split("/")[0]
@@ -254,6 +263,10 @@ class ScalarArray(Base):
             op = ctx.rng.choice(["i2s", "s2i", "s2i", "jac"])
             out.append({"header": h, "pts": g.gen_points(ctx.rng, h, ctx.rng.choice([1, 3, 6]), special=False),
                         "op": op, "distort": ctx.rng.random() < 0.7, "find": ctx.rng.random() < 0.5, "family": fam})
+        # jacobians whose +-step positions straddle the RA = 0 seam (both branches of wrap_ra_diff, scalar and array code)
+        for _ in range(ctx.n(8, 60) if round == 0 else 6):
+            h, fam, pts = seam_case(ctx.rng, ctx.rng.choice([1, 3]))
+            out.append({"header": h, "pts": pts, "op": "jac", "distort": ctx.rng.random() < 0.7, "find": False, "family": fam})
         return out
 
     @staticmethod
@@ -490,11 +503,13 @@ def jac_item(h, pt, distort, step, fam):
 
 def jac_items(ctx, n):
     items = []
-    for h, fam in header_plan(ctx, n, "jac"):
+    plan = header_plan(ctx, n, "jac")
+    for i, (h, fam) in enumerate(plan):
         pt = g.gen_points(ctx.rng, h, 1, special=False)[0]
-        if fam.split("/")[1].startswith("seam") and g.in_image(h, h["crpix1"], h["crpix2"]):
+        if i % 2 == 0:
             # on the RA = 0 seam: the +-step positions straddle it and wrap_ra_diff is exercised
-            pt = [h["crpix1"] + ctx.rng.uniform(-0.4, 0.4), h["crpix2"] + ctx.rng.uniform(-0.4, 0.4)]
+            h, fam, pts = seam_case(ctx.rng, 1)
+            pt = pts[0]
         step = ctx.rng.choice([1.0, 1.0, 0.5, 2.0])
         try:
             it = jac_item(h, pt, ctx.rng.random() < 0.7, step, fam)
